@@ -2,6 +2,8 @@
 
   _SIMPLE_MATHML_TO_SYMPY_CLASSES   dict literal  tag -> sympy.<name>
   MATHML_NARY_RELATIONS             set literal of tags
+  MATHML_UNARY_OPERATORS            set literal of tags (operators wrapped to take exactly one operand)
+  MATHML_CONTAINERS                 set literal of tags (elements that may have child elements)
   Transpiler.__init__ self.handlers dict literal  tag -> self.<method>
   and the shape of the code that installs the simple table over the explicit handlers.
 
@@ -65,6 +67,12 @@ def main():
     if not isinstance(v, ast.Set):
         die('MATHML_NARY_RELATIONS is not a set literal')
     nary = sorted(str_const(e, 'MATHML_NARY_RELATIONS') for e in v.elts)
+    sets = {}
+    for name in ('MATHML_UNARY_OPERATORS', 'MATHML_CONTAINERS'):
+        v = module_assign(tree, name)
+        if not isinstance(v, ast.Set):
+            die('%s is not a set literal' % name)
+        sets[name] = sorted(str_const(e, name) for e in v.elts)
 
     # ---- Transpiler.__init__: self.handlers = {...}; for tag_name in SIMPLE...: self.handlers[tag_name] = self._simple_operator_handler
     cls = [n for n in tree.body if isinstance(n, ast.ClassDef) and n.name == 'Transpiler']
@@ -119,12 +127,20 @@ Definition simple_table : list (name * name) := [
 (* MATHML_NARY_RELATIONS *)
 Definition nary_relations : list name := [%s].
 
+(* MATHML_UNARY_OPERATORS *)
+Definition unary_operators : list name := [%s].
+
+(* MATHML_CONTAINERS *)
+Definition container_tags : list name := [%s].
+
 (* Transpiler.__init__: self.handlers literal, MathML tag -> method name *)
 Definition handler_methods : list (name * name) := [
 %s
 ].
 ''' % (';\n'.join('  (%s, %s)' % (coq_name(t), coq_name(s)) for t, s in simple),
        '; '.join(coq_name(t) for t in nary),
+       '; '.join(coq_name(t) for t in sets['MATHML_UNARY_OPERATORS']),
+       '; '.join(coq_name(t) for t in sets['MATHML_CONTAINERS']),
        ';\n'.join('  (%s, %s)' % (coq_name(t), coq_name(m)) for t, m in handlers))
     write_if_changed(os.path.join(COQ, 'Gen', 'TranspileTables_gen.v'), out)
 
